@@ -1937,10 +1937,10 @@ pub fn run(args: &Args) {
         let page = if focus == "c14" { *r.pick(&[512usize, 1024]) } else { *r.pick(&[512usize, 512, 1024, 4096]) };
         let region = if focus == "c14" { 65536u64 } else { *r.pick(&[65536u64, 65536, 1 << 20, 0]) };
         let region = if region != 0 { region.max(page as u64 * 64) } else { 0 };
-        // focus c11: every seventh case uses regions of eight pages and grows well beyond 256 of
+        // focus c11 and c14: every seventh case uses regions of eight pages and grows well beyond 256 of
         // them (region numbers of more than one byte in the saved allocator state); such states
         // are too large for the list-based Lean monitors, the harness oracles judge them alone
-        let many_regions = focus == "c11" && case_index % 7 == 3;
+        let many_regions = (focus == "c11" || focus == "c14") && case_index % 7 == 3;
         let (page, region) = if many_regions { (1024usize, 8192u64) } else { (page, region) };
         out.mute_hist = focus == "c14" || focus == "c10" || many_regions;
         let cfg = Cfg { page, region, cache: *r.pick(&[0usize, 65536, 1 << 30]) };
